@@ -1,5 +1,6 @@
 import Amgcl.Proofs.RelaxScaleCheb
 import Amgcl.Proofs.RelaxScaleIlup
+import Amgcl.Proofs.RelaxScaleIluk
 import Amgcl.Properties.C06
 /-!
 # C02 (scaling clause for the factorisation / polynomial smoothers) — `N(cA) = c⁻¹ N(A)` for ILU(0), ILUP, Chebyshev
@@ -27,8 +28,9 @@ and Gauss–Seidel.  This file proves it for the FAITHFUL constructor models of 
   multiplied by `c⁻¹` — provided every row stores a non-zero diagonal (`backend::diagonal(A, true)` replaces the
   inverse of a zero by `1`, which does not scale).  For `c < 0` without `scale` the statement is false (`|c| ≠ c`).
 
-ILU(k) (`iluk.hpp`) makes no value-dependent decision at all (no zero dropping, no pivot test, levels only); its
-scaling statement is `iluk_scale` (see the end of the file for its status).
+* **ILU(k)** (`iluk_scale`): `iluk.hpp` makes no value-dependent decision at all (slots are created by LEVEL, nothing is
+  dropped by value — not even an exact zero —, no pivot test), so the level pattern of `c·A` is that of `A` with NO
+  hypothesis on the matrix (unsorted rows and duplicates included): same outcome, factors `L`, `c·U`, `c⁻¹·D`.
 -/
 set_option linter.unusedSectionVars false
 namespace Amgcl.C02e
@@ -103,6 +105,36 @@ example : (ilup 1 (1 : ℚ)).setup (scale C06.exA 4) = .ok (scaleFactors 4 C06.e
   rw [(ilup_scale (4 : ℚ) (by norm_num) 1 1 C06.exA (by decide) rfl (by decide) (by decide)).2.1]
   show SetupOutcome.map (scaleFactors 4) (ilupFactorW 1 C06.exA) = _
   rw [C06c.ilup_as_written_eq_spec 1 C06.exA (by decide) rfl (by decide) (by decide), C06.exA_ilup]; rfl
+
+/-! ## ILU(k) -/
+
+/-- **`iluk_scale`.**  Every fill level `k`, every `c ≠ 0`, EVERY matrix (no structural hypothesis: the code takes no
+value-dependent decision): the constructor run on `c·A` has the outcome of the run on `A` with the factors `L`, `c·U`,
+`c⁻¹·D`; for well-formed square `A` the sweeps satisfy `N(cA) = c⁻¹ N(A)`. -/
+theorem iluk_scale (c : K) (hc : c ≠ 0) (k : Nat) (ω : K) (A : CRS K) :
+    (iluk k ω).setup (scale A c) = SetupOutcome.map (scaleFactors c) ((iluk k ω).setup A) ∧
+    (A.WF → A.ncols = A.nrows → ∀ F, (iluk k ω).setup A = .ok F →
+      (∀ b : Vec K, b.size = A.nrows → iluSolve (scaleFactors c F) b = vsmul c⁻¹ (iluSolve F b)) ∧
+      ∀ f x t t' : Vec K,
+        (iluk k ω).applyPre (scaleFactors c F) (scale A c) (vsmul c f) x t = (iluk k ω).applyPre F A f x t' ∧
+        (iluk k ω).applyPost (scaleFactors c F) (scale A c) (vsmul c f) x t = (iluk k ω).applyPost F A f x t') := by
+  refine ⟨ilukFactor_scale c hc k A, ?_⟩
+  intro hA hsq F hF
+  obtain ⟨R, hR⟩ := (C06.iluk_trace_exists k ω A F).mp hF
+  obtain ⟨_, h2, _, h4, h5, _, h7, h8, _, _, _⟩ := C06.iluk_factors_wf k A hA hsq F R hR
+  refine ⟨fun b hb => iluSolve_scale c hc F h2 h4 (by omega) (by omega) b (by omega), ?_⟩
+  intro f x t t'
+  exact ⟨iluSweep_scale c hc ω F A h2 h4 (by omega) (by omega) (by omega) f x t t',
+    iluSweep_scale c hc ω F A h2 h4 (by omega) (by omega) (by omega) f x t t'⟩
+
+-- the K01 matrix (a contribution IS discarded there) and an unsorted matrix with duplicates
+example : (iluk 1 (1 : ℚ)).setup (scale C06.exK 4) = .ok (scaleFactors 4 C06.exKF) := by
+  rw [(iluk_scale (4 : ℚ) (by norm_num) 1 1 C06.exK).1,
+    (C06.iluk_trace_exists 1 (1 : ℚ) C06.exK C06.exKF).mpr ⟨C06.exKR, C06.exK_ilukT⟩]; rfl
+example : (iluk 0 (1 : ℚ)).setup (scale C06.exFill (-2)) = .ok (scaleFactors (-2) C06.exFill0) := by
+  rw [(iluk_scale (-2 : ℚ) (by norm_num) 0 1 C06.exFill).1]
+  show SetupOutcome.map (scaleFactors (-2)) (ilukFactor 0 C06.exFill) = _
+  rw [C06.exFill_iluk0]; rfl
 
 end ilu0
 
